@@ -65,6 +65,11 @@ where
         // this makes a locally owned copy of the cones
         let cones = SupportedConeT::new_collapsed(cones);
 
+        // take the module level infinity bound once, so that dropping
+        // and capping of infinite bounds below agree with each other even
+        // if another thread changes the module's value meanwhile
+        let infbound = crate::get_infinity();
+
         // some caution is required to ensure we take a minimal,
         // but nonzero, number of data copies during presolve steps
 
@@ -81,7 +86,7 @@ where
 
         // presolve : return nothing if disabled or no reduction
         // --------------------------------------
-        let presolver = try_presolver(A, b, &cones, settings);
+        let presolver = try_presolver(A, b, &cones, settings, infbound);
 
         if let Some(ref presolver) = presolver {
             let (_A_new, _b_new, _cones_new) = presolver.presolve(A, b, &cones);
@@ -126,7 +131,7 @@ where
         //for inf values that were not in a reduced cone
         //this is not considered part of the "presolve", so
         //can always happen regardless of user settings
-        let infbound = crate::get_infinity().as_T();
+        let infbound: T = infbound.as_T();
         b_new.scalarop(|x| T::min(x, infbound));
 
         // this ensures m is the *reduced* size m
@@ -368,6 +373,7 @@ fn try_presolver<T>(
     b: &[T],
     cones: &[SupportedConeT<T>],
     settings: &DefaultSettings<T>,
+    infbound: f64,
 ) -> Option<Presolver<T>>
 where
     T: FloatT,
@@ -376,7 +382,7 @@ where
         return None;
     }
 
-    let presolver = Presolver::new(A, b, cones, settings);
+    let presolver = Presolver::new(A, b, cones, settings, infbound);
 
     if !presolver.is_reduced() {
         return None;
